@@ -3,7 +3,7 @@
 #include "vf.h"
 VF_SIZE(GeodesicExact)
 VF_OFF(GeodesicExact, maxit2_) VF_OFF(GeodesicExact, tiny_) VF_OFF(GeodesicExact, tol0_) VF_OFF(GeodesicExact, tol1_) VF_OFF(GeodesicExact, tol2_) VF_OFF(GeodesicExact, tolb_) VF_OFF(GeodesicExact, xthresh_)
-VF_OFF(GeodesicExact, _a) VF_OFF(GeodesicExact, _f) VF_OFF(GeodesicExact, _f1) VF_OFF(GeodesicExact, _e2) VF_OFF(GeodesicExact, _ep2) VF_OFF(GeodesicExact, _n) VF_OFF(GeodesicExact, _b) VF_OFF(GeodesicExact, _c2) VF_OFF(GeodesicExact, _etol2)
+VF_OFF(GeodesicExact, _a) VF_OFF(GeodesicExact, _f) VF_OFF(GeodesicExact, _f1) VF_OFF(GeodesicExact, _e2) VF_OFF(GeodesicExact, _ep2) VF_OFF(GeodesicExact, _n) VF_OFF(GeodesicExact, _b) VF_OFF(GeodesicExact, _c2) VF_OFF(GeodesicExact, _etol2) VF_OFF(GeodesicExact, _nC4)
 using namespace GeographicLib;
 VF_API double vf_geninverse_exact(double a, double f, double lat1, double lon1, double lat2, double lon2, double* out) {
   GeodesicExact g(a, f); return g.GenInverse(lat1, lon1, lat2, lon2, GeodesicExact::DISTANCE | GeodesicExact::AZIMUTH | GeodesicExact::REDUCEDLENGTH | GeodesicExact::GEODESICSCALE, out[0], out[1], out[2], out[3], out[4], out[5], out[6], out[7], out[8]);
